@@ -13,7 +13,7 @@ import os
 from lib import repo, simmp, simrun, guard
 from checks import c01, c03
 
-FLAVOURS = ["plain", "unpicklable", "signal"]
+FLAVOURS = ["plain", "unpicklable", "signal", "oserror"]
 WQ_CFG = c03.CFG
 WALK_CFG = c01.CFG
 
@@ -84,7 +84,42 @@ def explore_walk_faults(ctx, depth, confs, nws, policies, runs):
                                "status": out.status, "fault_started": fs, "seed": ctx.seed, "trace_tail": [list(map(str, t)) for t in out.trace[-40:]]}
                         rep["fault_flavour"] = flav
                         judge_fault(ctx, "parallel walk depth %d apex %s, %s fault at %s, %d workers, %s" % (depth, apex, flav, it, nw, pol), "C19:walk", out, log, rep)
+                        # an incomplete pyramid must not be built on: no tile above the failed one may be processed, whatever the outcome
+                        ops = set(row["ops"])
+                        done = set()
+                        for tag, p, who in log:
+                            if tag == "cb_end":
+                                done.add(p)
+                            elif tag == "cb_start":
+                                early = [k for k in c01.kids(p) if k in ops and k not in done]
+                                if early:
+                                    ctx.violation("C19:walk:parent-after-failed-child", "parallel walk depth %d, %s fault at %s: the callback for %s ran although the callback "
+                                                  "of its child %s never completed" % (depth, flav, it, p, early[0]), rep)
+                                    break
                         ctx.distinct(("fault", "walk", it, nw, tuple((a, o) for a, _op, o in out.trace)))
+
+
+def explore_walk_many_faults(ctx, depth, confs, nws, policies, runs):
+    """Systematic faults (e.g. a full disk): every operation of the deepest operation level fails, so every worker dies
+    while tiles are still queued."""
+    table = c01.ops_table(ctx, depth, [(a, x) for a, x, g in confs])
+    for (acc, apex, generic), row in zip(confs, table):
+        fset = {p for p in row["ops"] if p[0] == depth - 1}
+        if len(fset) < 2:
+            continue
+        for nw in nws:
+            for pol in policies:
+                for k in range(runs):
+                    log = []
+                    flav = FLAVOURS[ctx.rng.randrange(len(FLAVOURS))]
+                    out = simrun.run(c01.walk_main(depth, acc, apex, nw, log, faults=fset, generic=generic, flavour=flav), simrun.POLICIES[pol](ctx.rng))
+                    ctx.count()
+                    fs = any(tag == "cb_start" and p in fset for tag, p, who in log)
+                    rep = {"stage": "walk", "depth": depth, "accept": sorted(acc), "apex": apex, "fault_items": sorted(fset), "fault_flavour": flav, "workers": nw,
+                           "policy": pol, "status": out.status, "fault_started": fs, "seed": ctx.seed, "trace_tail": [list(map(str, t)) for t in out.trace[-40:]]}
+                    judge_fault(ctx, "parallel walk depth %d apex %s, %s fault at every level-%d operation, %d workers, %s" % (depth, apex, flav, depth - 1, nw, pol),
+                                "C19:walk", out, log, rep)
+                    ctx.distinct(("faults", "walk", tuple(sorted(fset)), nw, tuple((a, o) for a, _op, o in out.trace)))
 
 
 def real_fault_run(ctx, name, fn):
@@ -159,6 +194,9 @@ def run(ctx):
     explore_stage_faults(ctx, c03.TransformStage(3), [2], ["random", "main-first"], 1 if q else 3, all_items_fail=True)
     wconfs = [(fam[0], c01.ROOT, False), (fam[2], c01.ROOT, False), (fam[1], (1, 0, 0), False), (c01.with_kids(l1, 2), c01.ROOT, True)]
     explore_walk_faults(ctx, 2, wconfs if not q else wconfs[:3], [2] if q else [2, 3], pols if not q else pols[:3], 1 if q else 4)
+    l1full = c01.with_kids(l1, 3)
+    explore_walk_many_faults(ctx, 2, [(c01.with_kids(l1, 2), c01.ROOT, True), (fam[1], c01.ROOT, False)], [2, 3], ["random", "workers-last", "eager-timeout"], 1 if q else 4)
+    explore_walk_many_faults(ctx, 3, [(l1full, c01.ROOT, True)], [2], ["random", "main-first"], 1 if q else 3)
     # (4) real processes, one fault per entry point
     from toasty.pyramid import Pyramid
 
